@@ -352,10 +352,11 @@ inline RayTri rayTriangle(const V3& o, const V3& d, const V3& a, const V3& b, co
 struct BfRay { bool hit = false; LD t = 0; int face = -1; bool grazing = false; };
 // first hit with t >= 0. 'grazing' is set when any candidate face is met within 'margin' (barycentric) of its
 // boundary, or nearly in its own plane, or at t within margin of 0: such rays are not judged.
-inline BfRay bfRay(const MeshData& m, const V3& o, const V3& d, LD margin) {
+inline BfRay bfRay(const MeshData& m, const V3& o, const V3& d, LD margin, int skipFace = -1) {
     BfRay out;
     LD best = std::numeric_limits<LD>::infinity();
     for (int i = 0; i < m.nf(); ++i) {
+        if (i == skipFace) continue;
         V3 a = m.vert(i, 0), b = m.vert(i, 1), c = m.vert(i, 2);
         RayTri r = rayTriangle(o, d, a, b, c);
         if (!r.plane) {
@@ -406,6 +407,19 @@ inline BfInside bfInside(const MeshData& m, const V3& x, vh::Rng& r) {
     }
     if (votes[0] + votes[1] >= 3 && (votes[0] == 0 || votes[1] == 0)) { out.ok = true; out.inside = votes[1] > 0; }
     return out;
+}
+
+// generalized winding number (Van Oosterom & Strackee solid angles): 1 inside, 0 outside for a closed outward-oriented mesh
+inline LD windingNumber(const MeshData& m, const V3& x) {
+    LD tot = 0;
+    for (int i = 0; i < m.nf(); ++i) {
+        V3 a = m.vert(i, 0) - x, b = m.vert(i, 1) - x, c = m.vert(i, 2) - x;
+        LD la = norm(a), lb = norm(b), lc = norm(c);
+        LD num = dot(a, cross(b, c));
+        LD den = la * lb * lc + dot(a, b) * lc + dot(b, c) * la + dot(c, a) * lb;
+        tot += 2 * std::atan2(num, den);
+    }
+    return tot / (4 * 3.14159265358979323846264338327950288L);
 }
 
 inline double minSinAngle(const MeshData& m) {
